@@ -26,6 +26,7 @@ type Plan struct {
 	SimNum   int      // additional random walks
 	SimDepth int
 	Twins    string // "" | "c10" | "c13": derive twin runs from the generated behaviours
+	Skew     bool   // replicas persist at different heights (wall-clock independence, C09)
 	MaxBeh   int    // cap on replayed behaviours (0 = all)
 }
 
@@ -234,6 +235,15 @@ func ReplayAndValidate(c *core.Ctx, g *Gen, replicas int) (*Outcome, error) {
 	if len(g.SpecCex) > 0 {
 		// a spec-level counterexample is a lead: it is always replayed on the real code
 		beh = append([][]int{g.SpecCex}, beh...)
+	}
+	if g.Plan.Skew {
+		dir, err := os.MkdirTemp(os.Getenv("VERIF_SCRATCH"), "verif-skew-")
+		if err != nil {
+			return nil, err
+		}
+		defer os.RemoveAll(dir)
+		ClockSkewDir = dir
+		defer func() { ClockSkewDir = "" }()
 	}
 	chunks := splitChunks(beh, c.Workers)
 	type chunkRes struct {
